@@ -20,7 +20,7 @@ ROOT = os.path.dirname(HERE)
 sys.path.insert(0, HERE)
 import extract  # noqa: E402
 
-VERUS_FLAGS = ["--output-json", "--time-expanded", "--triggers-mode", "silent",
+VERUS_FLAGS = ["--edition=2024", "--output-json", "--time-expanded", "--triggers-mode", "silent",
                "--multiple-errors", "20", "--error-format=json"]
 GENUINE = ("postcondition not satisfied", "precondition not satisfied", "assertion failed",
            "invariant not satisfied", "possible arithmetic underflow/overflow", "possible division by zero",
